@@ -11,13 +11,13 @@ Property the code is supposed to satisfy:
 It must hold {p['quantifier']['text']}.
 Relevant code: {', '.join(p['anchors']['files'])}.
 
-Task: find inputs, operation histories, fault points or interleavings for which the code AS IT IS (unmodified) violates this statement. This tree has already been audited once and several defects were repaired, so the obvious cases hold: look where a first audit does not — state that outlives the object it belongs to (caches, indexes, counters, ids that restart), alternative entry points (config load vs API, legacy endpoints, restart), error paths that leave half-updated state, rare but legal inputs (IPv6 zones, IPv4-mapped addresses, letter case, Unicode, trailing dots, empty/maximal values, duplicates), interactions between two features, time (expiry boundaries, DST, clock steps), and concurrency. Read the code carefully and try your hypotheses with small throw-away tests before you conclude.
+Task: find inputs, operation histories, fault points or interleavings for which the code AS IT IS (unmodified) violates this statement. This tree has already been audited TWICE and about sixty defects were repaired (`git log --grep '^fix:' --stat` in the worktree shows every repair: read it first, do not re-report what is fixed, and do not report the mirror image of a fix unless it really fails). The obvious and the second-order cases hold: look where the earlier audits did not — state that outlives the object it belongs to (caches, indexes, counters, ids that restart), alternative entry points (config load vs API, legacy endpoints, restart), error paths that leave half-updated state, rare but legal inputs (IPv6 zones, IPv4-mapped addresses, letter case, Unicode, trailing dots, empty/maximal values, duplicates), interactions between two features, time (expiry boundaries, DST, clock steps), and concurrency. Read the code carefully and try your hypotheses with small throw-away tests before you conclude.
 
 For each genuine violation i you can DEMONSTRATE write into /tmp/hunt-{low}-out/<i>/:
 - demo_test.go: a self-contained in-package Go test (name TestHuntDemo...) that FAILS on the unmodified tree because of the violation and is deterministic (run it 3 times); it must go through the real code (the most public entry point that shows it), not re-implement it;
 - fix.diff: a minimal patch (output of `git diff`) that a maintainer would accept — it corrects the behaviour, does not special-case the failing input or remove a feature; with it applied the demo passes, `go build ./...` succeeds and the existing tests of the touched packages pass (`go test -vet=off -count=1 ./internal/<pkg>/...`);
 - README.md: the package directory of the demo and the exact go test command; the concrete failing input/history; which clause of the statement it violates and why this is a defect of the code rather than behaviour the project documents or intends (check README.md, AGHTechDoc.md, openapi/, CHANGELOG.md and comments — if the project documents the behaviour, it is not a finding); how severe/realistic it is.
-Be strict: a finding must follow from the statement as written. Do not report style issues, theoretical races you cannot demonstrate, or behaviour outside the statement. Quality over quantity: zero findings after a careful audit is a valid result — then write /tmp/hunt-{low}-out/NONE.md listing the hypotheses you tested and why each holds.
+Be strict: a finding must follow from the statement as written. Do not use `git stash` (the stash is shared between all worktrees of this repository): use `git diff > file` and `git checkout -- .`. Do not report style issues, theoretical races you cannot demonstrate, or behaviour outside the statement. Quality over quantity: zero findings after a careful audit is a valid result — then write /tmp/hunt-{low}-out/NONE.md listing the hypotheses you tested and why each holds.
 Leave the worktree clean (`git status` empty) at the end.
 
 Environment: run Go with `export GOFLAGS=-mod=mod GOPROXY=off` (no network; do NOT set GOSUMDB or GOTOOLCHAIN). `-race` and `GOEXPERIMENT=synctest` work. The machine is heavily loaded by other jobs: allow generous timeouts. Final message: the list of findings (or none) with the verification results you observed.""")
